@@ -295,8 +295,6 @@ def c_frames_to_endpoint(ft2: int, s2: int, fa: bool, fb: bool, fc: bool, n: int
             t.feed_wire(to_request_stream_frame(peer_live, Payload(b'x'), initial_request_n=5))
         loop.run_ready()
         h = ep._handler
-        own0 = ep._stream_control._streams.get(own_live)
-        peer0 = ep._stream_control._streams.get(peer_live) if live_peer else None
         if ctx == 1:
             t.feed(InvalidFrame())
         elif ctx == 2:
@@ -308,35 +306,34 @@ def c_frames_to_endpoint(ft2: int, s2: int, fa: bool, fb: bool, fc: bool, n: int
             t.feed_wire(bad)
         loop.run_ready()
         n_before = len(t.sent)
-        calls_before = h.calls
-        fresh_requests = 0            # hostile frames that are complete requests on an id that is not in use
-        fr = _mk(ft2, sid2, fa, fb, fc, n, code)
-        if fr is not None:
+        devs = []
+
+        def feed_hostile(fr, ft, sid):
+            """feed one hostile frame; a request frame on an id that is in use AT THAT MOMENT (an earlier hostile frame
+            may legitimately have ended the stream) never reaches the application and never replaces the live stream"""
+            table = ep._stream_control._streams
+            before = table.get(sid)
+            calls0 = h.calls
             t.feed(fr)
             loop.run_ready()
-            if 3 <= ft2 <= 6 and sid2 not in (own_live, peer_live):
-                fresh_requests += 1      # (a request on stream 0 is served too: tolerated, nothing is taken down)
+            if before is not None and 3 <= ft <= 6:
+                if h.calls != calls0:
+                    devs.append('C12:request-on-a-stream-id-in-use-reached-the-application')
+                after = table.get(sid)
+                if after is not None and after is not before:
+                    devs.append('C12:live-stream-replaced-by-hostile-frame')
+
+        fr = _mk(ft2, sid2, fa, fb, fc, n, code)
+        if fr is not None:
+            feed_hostile(fr, ft2, sid2)
         offenders = {sid2, 0}
         if SECOND:
             ft3 = conc(ft3, 0, 13)
             sid3 = pick(s3, ids)
             fr3 = _mk(ft3, sid3, fb, fc, fa, n, code)
             if fr3 is not None:
-                t.feed(fr3)
-                loop.run_ready()
-                if 3 <= ft3 <= 6 and sid3 not in (own_live, peer_live):
-                    fresh_requests += 1
+                feed_hostile(fr3, ft3, sid3)
             offenders.add(sid3)
-        devs = []
-        # a request frame that re-uses an id in use never reaches the application and never replaces the live stream
-        if live_peer and h.calls - calls_before > fresh_requests:
-            devs.append('C12:request-on-a-stream-id-in-use-reached-the-application')
-        cur = ep._stream_control._streams.get(own_live)
-        if cur is not None and cur is not own0:
-            devs.append('C12:live-own-stream-replaced-by-hostile-frame')
-        cur = ep._stream_control._streams.get(peer_live)
-        if live_peer and cur is not None and cur is not peer0:
-            devs.append('C12:live-peer-stream-replaced-by-hostile-frame')
         d = generic_dev(loop, ep)
         if d:
             devs.append(d)
